@@ -767,6 +767,9 @@ static void write_num(long v) {
   (void)r;
 }
 
+static const char *(*g_namer)(int) = nullptr;
+void set_op_namer(const char *(*namer)(int)) { g_namer = namer; }
+
 static void death_line(const char *how) {
   TaskCtl *c = g_cur;
   write_str("\nDEAD how=");
@@ -779,6 +782,8 @@ static void death_line(const char *how) {
   write_num(c->id);
   write_str(" op=");
   write_num(c->op_index);
+  write_str(" kind=");
+  write_str(g_namer ? g_namer(c->op_kind) : "?");
   write_str(" lib=");
   write_num(c->lib_depth > 0 && !c->exempt);
   write_str("\n");
